@@ -126,6 +126,50 @@ def _setup2():
     return r, cs
 
 
+CFG3 = {"node": {"idle": 2, "dwa": 4, "cer": 4, "cea": 4, "wakeup": 1, "retx": 4},
+        "peers": [peer_cfg("p1"), peer_cfg("p2")], "apps": [app_cfg("a1", 4, peers=["p1", "p2"], handler="answer")]}
+
+
+def c11_watchdog_due_while_other_connection_busy(policy):
+    """connection 1 has been silent for longer than its idle timeout at the very instant connection 2 delivers a watchdog
+    request: the I/O loop runs its timer checks, is woken again by connection 2's answer, runs them again - under every
+    schedule of the I/O loop, the readers and the writers (visible operations; `policy`)"""
+    from .world import role_policy
+    r = nt.Runner(CFG3, seed=1)
+    w = r.w
+    try:
+        r.do({"a": "start"})
+        cs = []
+        for host in ("p1.r1", "p2.r1"):
+            st = r.do({"a": "connect"})
+            c = st["out"][0]["c"]
+            r.do({"a": "feed", "c": c, "ms": [nt.M("CE", True, 1, 1, oh=host, auth=[4])]})
+            cs.append(c)
+        c1, c2 = cs
+        for k in (1, 2):            # connection 2 keeps talking, connection 1 stays silent
+            r.do({"a": "tick"})
+            r.do({"a": "feed", "c": c2, "ms": [nt.M("DW", True, 10 + k, 20 + k, oh="p2.r1")]})
+        m = nt.M("DW", True, 13, 23, oh="p2.r1")
+        act = {"a": "multi", "acts": [{"a": "tick"}, {"a": "feed", "c": c2, "ms": [m]}]}
+        r._mark = len(w.s.obs)
+        w.s.advance(1)
+        w.s.emit("tick")
+        w.s.emit("fed", c=c2, m=None)
+        r.vcs[c2].sock.feed(nt.concrete(m))
+        w.s.fine = True
+        w.s.policy = policy
+        w.s.run()
+        w.s.fine = False
+        w.s.policy = role_policy
+        w.s.run()
+        out = r._collect()
+        r.steps.append({"act": act, "out": out, "snap": w.snap()})
+        r.do({"a": "tick"})
+        return {"steps": r.steps, "exits": [(n, e) for n, e, _ in w.s.exits], "params": nt.model_params(r.full_cfg, max_conn=6)}
+    finally:
+        r.close()
+
+
 def _stopper(w, force, wait):
     def run():
         try:
